@@ -9,9 +9,28 @@ import (
 	"strings"
 )
 
+// c09ErrKind: an rpc_error of one of the API's parametrised families (few families, so that one family comes
+// up again and again during a run — with another parameter each time)
+func c09ErrKind(r *Rand) string {
+	fam := [][2]string{{"420", "FLOOD_WAIT_%d"}, {"420", "SLOWMODE_WAIT_%d"}, {"303", "FILE_MIGRATE_%d"},
+		{"400", "FILE_PART_%d_MISSING"}, {"420", "TAKEOUT_INIT_DELAY_%d"}, {"303", "USER_MIGRATE_%d"}}[r.Intn(6)]
+	return "e" + fam[0] + "." + fmt.Sprintf(fam[1], 1+r.Intn(99999))
+}
+
+// c09Kinds: caller kinds from the pool; "ef" stands for an error of a parametrised family (drawn per caller)
+func c09Kinds(r *Rand, n int, pool []string) []string {
+	k := rsKinds(r, n, pool)
+	for i := range k {
+		if k[i] == "ef" {
+			k[i] = c09ErrKind(r)
+		}
+	}
+	return k
+}
+
 func c09Gen(g *G) {
 	r := g.R
-	pool := []string{"o", "o", "b", "vl", "vo", "e"}
+	pool := []string{"o", "o", "b", "vl", "vo", "e", "ef", "ef"}
 	g.Emit("c09.run o,o g0+1;w2;a1;a0", "basic")
 	g.Emit("c09.run vl,vo g0+1;w2;c(a1z,a0z)", "vector-gzip-container")
 	g.Emit("c09.run o g0;w1;a0;j;d0;g0;w2;a0", "duplicate-result")
@@ -38,10 +57,32 @@ func c09Gen(g *G) {
 	g.Emit("c09.run vl,vl g0+1;w2;c(a1z,E0)", "error-for-a-hinted-call")
 	g.Emit("c09.run o,o,o,o g0;w1;fk:1;a0;j;g1+2+3;w4;a1;a2;a3", "fault-ack-write")
 	g.Emit("c09.run o,b,vl fk:2;n77;g0;w1;a0;j;g1+2;w3;c(a2z,a1)", "fault-ack-write")
+	// rpc_errors of the API's parametrised families (the server's text carries a number, the structured error the
+	// family name and the number): several callers get errors of ONE family with different parameters, in one
+	// round and in successive rounds; the delivered error is compared in full (code, name, parameter, text)
+	g.Emit("c09.run e420.FLOOD_WAIT_3,e420.FLOOD_WAIT_11,e420.FLOOD_WAIT_12,o g0+1+2+3;w4;c(a2,a1);a3;a0z", "error-family-parameters")
+	g.Emit("c09.run e303.FILE_MIGRATE_2,e303.FILE_MIGRATE_4,e400.FILE_PART_7_MISSING,e400.FILE_PART_0_MISSING,e420.SLOWMODE_WAIT_30,e420.SLOWMODE_WAIT_31 g0;w1;a0;j;g1+2+3+4+5;w6;a5;a4z;c(a3,a2,a1)", "error-family-parameters")
+	g.Emit("c09.run vl,e420.FLOOD_WAIT_86400,e420.FLOOD_WAIT_1,e400.PEER_ID_INVALID,e400.PEER_ID_INVALID g0+1+2+3+4;w5;a2;a1;c(a4,a3);a0", "error-family-parameters")
+	// results of about and beyond 2^20 bytes (a file part of the largest size is 2^20 bytes of payload inside an
+	// object inside rpc_result inside the envelope), as plain messages, followed by other callers' answers
+	g.Emit("c09.run ob1048576,o,vl g0+1+2;w3;a0;a1;a2", "result-around-2^20")
+	g.Emit("c09.run ob1048400,ob1048520,ob1048600,b g0+1+2+3;w4;a1;a0;a2;a3", "result-around-2^20")
+	g.Emit(fmt.Sprintf("c09.run ob%d,o,ob%d g0+1+2;w3;a2;a0;a1", 1<<20-256+r.Intn(512), 1<<20+r.Intn(1<<20)), "result-around-2^20")
+	if g.Thorough() {
+		g.Emit("c09.run ob4194304,ob16000000,o g0+1+2;w3;a0;a1;a2", "result-around-2^20")
+	}
+	// a caller has encoded its request and waits for the write lock (another caller's write is in progress)
+	// while a third caller encodes and the receive loop acknowledges a message: every request must reach the
+	// server as its caller encoded it. P1: all goroutines of the client on one processor.
+	g.Emit("c09.run o,o,o P1;ywq:3000:1;g0;s400;g1;s400;g2;s300;u;w3;a2;a0;a1", "encoded-request-waits-for-write-lock")
+	g.Emit("c09.run o,vl,b ywq:3000:1;g0;s400;g1;s400;u;g2;w3;c(a1,a0);a2", "encoded-request-waits-for-write-lock")
 	n := g.N(60, 1500)
 	for i := 0; i < n; i++ {
 		k := 1 + r.Intn(g.N(8, 16))
-		kinds := rsKinds(r, k, pool)
+		kinds := c09Kinds(r, k, pool)
+		if r.Intn(12) == 0 {
+			kinds[r.Intn(k)] = fmt.Sprintf("ob%d", 1<<20-300+r.Intn(600))
+		}
 		order := rsPerm(r, k)
 		if r.Intn(5) == 0 && k >= 2 {
 			// two rounds: the first round's answers are acknowledged under write faults and delivered out of
